@@ -454,7 +454,78 @@ def rule_endpoint(run):
     run.trust('whitelist interpreter evaluating the pure arithmetic function sat() at two constants (exact constant folding, math.sqrt allowed)')
 
 
+def rule_divsafe(run):
+    run.rule('DIVSAFE', 'over the whole guarded input range of sat(), tsat() and b23t() no denominator can be zero and no square-root '
+             'argument negative: outward-rounded interval evaluation of the routine on a subdivision of the range excludes it; a '
+             'denominator whose sign differs at the two ends of the range has a zero inside it (intermediate value theorem)', floor=2)
+    from ..ivarith import IV, IVEval, Hazard
+    from ..intervals import constraints
+    prog = run.prog
+    ccache = {}
+    for fname, N in (('sat', 4096), ('tsat', 8192)):
+        fi = prog.func(MOD + '.' + fname)
+        var = fi.params[0]
+        guard = [st for st in fi.node.body if isinstance(st, ast.If)]
+        key = 'IAPWS97.%s :: divisions and square roots defined on the whole range' % fname
+        if len(guard) != 1:
+            run.unknown(key, 'range guard not found', where=fi.where()); continue
+        env, rest = constraints(prog, MOD, guard[0].test)
+        iv = env.get(var)
+        if iv is None or rest or not (iv.lo > -1e300 and iv.hi < 1e300):
+            run.unknown(key, 'guard `%s` is not a closed range of %s' % (norm(guard[0].test), var), where=fi.where(guard[0])); continue
+        body = guard[0].body
+
+        def evaluate(lo, hi):
+            ev = IVEval(prog, MOD, {var: IV(lo, hi)}, ccache)
+            try:
+                ev.run(body); return ev, None
+            except Hazard as h:
+                return ev, h
+        # 1. point evaluation at the two ends: the sign of every denominator
+        try:
+            e_lo, h_lo = evaluate(iv.lo, iv.lo)
+            e_hi, h_hi = evaluate(iv.hi, iv.hi)
+        except AnalysisError as e:
+            run.unknown(key, str(e), where=fi.where()); continue
+        flipped = None
+        for k, (kind, node, opnd) in e_lo.sites.items():
+            if kind == 'division' and k in e_hi.sites:
+                s0, s1 = opnd.sign(), e_hi.sites[k][2].sign()
+                if s0 * s1 == -1: flipped = (node, opnd, e_hi.sites[k][2])
+        if flipped:
+            node, a, b = flipped
+            run.violated(key, 'the denominator `%s` is %s at %s = %g and %s at %s = %g: it passes through zero inside the range, where '
+                         '`%s` is 0/0 or infinite (an algebraically equivalent rearrangement of the quadratic root that is singular where '
+                         'its leading coefficient changes sign)' % (norm(node.right), 'negative' if a.sign() < 0 else 'positive', var, iv.lo,
+                                                                    'negative' if b.sign() < 0 else 'positive', var, iv.hi, norm(node)),
+                         where=fi.where(node))
+            continue
+        # 2. enclosure on an adaptive subdivision (a piece on which an operand is not yet enclosed away from the hazard is bisected)
+        bad, n_eval = None, 0
+        try:
+            work = [(iv.lo + (iv.hi - iv.lo) * i / 64.0, iv.lo + (iv.hi - iv.lo) * (i + 1) / 64.0 if i < 63 else iv.hi, 0) for i in range(64)]
+            while work:
+                lo, hi, depth = work.pop()
+                n_eval += 1
+                ev, h = evaluate(lo, hi)
+                if h is None: continue
+                if depth >= 40 or n_eval > 60000 or not (lo < (lo + hi) / 2 < hi):
+                    bad = (h, lo, hi); break
+                mid = (lo + hi) / 2
+                work.append((lo, mid, depth + 1)); work.append((mid, hi, depth + 1))
+        except AnalysisError as e:
+            run.unknown(key, str(e), where=fi.where()); continue
+        if bad is None:
+            run.ok(key, {'range': '%s in [%g, %g]' % (var, iv.lo, iv.hi), 'interval evaluations': n_eval, 'sites': len(e_lo.sites)}, where=fi.where())
+        else:
+            hz, l2, h2 = bad
+            run.unknown(key, 'for %s in [%.12g, %.12g] the %s operand `%s` is only enclosed by %s' % (var, l2, h2, hz.kind, norm(hz.node)[:60], hz.iv),
+                        where=fi.where(hz.node))
+    run.trust('interval evaluator ivarith.py (outward rounding by nextafter; +, -, *, /, sqrt, squares)')
+
+
 def check(run):
+    run.guarded('DIVSAFE', rule_divsafe)
     run.guarded('CHAIN', rule_chain)
     run.guarded('USE', rule_use)
     run.guarded('DERIV', rule_deriv)
